@@ -152,8 +152,9 @@ def c05(run):
     hosts = ["direct", "stream", "core", "bridge_bin", "bridge_json"]
     mc_and_replay(run, "cmd1", 5 if q else 6, ["ReadyClosed"], hosts, cap=1500 if q else 15000)
     mc_and_replay(run, "scripts", 6 if q else 8, ["ReadyClosed"], hosts, cap=1500 if q else 15000)
-    random_round(run, "hosts", run.seed, 1000 if q else 10000, hosts + ["core_legacy"], "mixed", 3 if q else 4, 14,
-                 selftest=True)
+    random_round(run, "hosts", run.seed, 1000 if q else 10000, hosts, "mixed", 3 if q else 4, 14, selftest=True)
+    # the legacy capability API host, on the part of the family it can express
+    random_round(run, "legacy", run.seed + 5, 2400 if q else 24000, ["core_legacy"], "mixed", 2, 18, budget=9)
     report_known(run)
 
 
@@ -251,7 +252,7 @@ def c08(run):
         "sequential consistency between schedule points (weak-memory reorderings are not explored)",
         "scenarios: k threads delivering items of one stream through Bridge::handle_response (modelled step by "
         "step in CruxMT.tla); two threads resolving the two requests of one join through Core::resolve plus an "
-        "event (forced interleavings only)",
+        "event; two tasks of one command (all) resolved by two threads (forced interleavings and free-running stress)",
         "harness built with debug-assertions off"]
     q = run.quick
     # 1. the interleaving-level model, exhaustively
@@ -317,7 +318,7 @@ def c08(run):
                        "point_names_seen": sorted(points)})
     # 3. systematic preemption-bounded enumeration on the real threads (both scenarios)
     for scn, k, p, stride in (("stream_bridge", 2, 2 if q else 3, 1), ("join_core", 3, 2, 1 if not q else 2),
-                              ("stream_bridge", 3, 1 if q else 2, 1)):
+                              ("all_core", 2, 2, 1), ("stream_bridge", 3, 1 if q else 2, 1)):
         op2 = run.path(f"mtenum_{scn}_{k}.out")
         rc, out = lib.sh([lib.BIN, "mtenum", scn, str(k), str(p), op2, str(stride)], timeout=6000)
         if rc != 0:
@@ -331,6 +332,28 @@ def c08(run):
                                    "distinct_interleavings": r["distinct_interleavings"], "bad": r["bad"]})
             elif not r.get("ok", True):
                 mt_violation(run, r)
+    # 3b. the same scenarios free-running on real threads (no controller): race windows that lie
+    #     inside one segment between two schedule points are only reachable this way
+    for scn, k in (("stream_bridge", 2), ("join_core", 2), ("all_core", 2), ("stream_bridge", 3), ("all_core", 3)):
+        iters = 8000 if q else 250000
+        op3 = run.path(f"mtstress_{scn}_{k}.out")
+        rc, out = lib.sh([lib.BIN, "mtstress", scn, str(k), str(iters), op3], timeout=6000)
+        if rc != 0:
+            raise lib.ToolError("mtstress failed: " + out[-2000:])
+        r = json.loads(open(op3).readline())
+        run.traces += r["iterations"]
+        run.stages.append({"stage": f"free-running stress[{scn},{k} threads]", "kind": "real-thread-stress",
+                           "iterations": r["iterations"], "bad": r["bad"]})
+        if r["bad"]:
+            run.violations += 1
+            p = os.path.join(lib.WORK, "replay", f"{run.prop}-{run.violations}.json")
+            with open(p, "w") as f:
+                json.dump({"kind": "mtstress", "property": run.prop, "scenario": scn, "threads": k, "iterations": iters,
+                           "bad_iterations": r["bad"], "first_bad": r["first_bad"], "sequential_reference": r["ref_agg"]},
+                          f, indent=1)
+            print(f"VIOLATION property={run.prop} replay={p}")
+            print(f"  {r['bad']} of {iters} free-running iterations of {scn} ended in a state no sequential order produces: "
+                  + json.dumps(r["first_bad"])[:300])
     # 4. the sequential reference is itself a behaviour of the sequential spec
     seq = [{"name": "mt-seq-ref", "host": "bridge_bin",
             "progs": [{"k": "chain", "id": 1, "tid": 2, "root": {"k": "stream", "tag": 1, "val": 1}, "stages": [],
